@@ -230,14 +230,36 @@ def r2(ctx):
     ctx.ob(pb.qual, "subinstance-genotype-is-parents-column", ok, pb.loc(), "a sub-instance's genotype is the allele count of the parent haplotypes' column" if ok else "subgeno/subhaps definitions changed")
     # genotype dictionaries = allele counts of the input genotype
     cg = ctx.func("whatshap.polyphase.create_genotype_list")
-    ag = util.single_def(cg.node, "all_genotypes")
-    inner = [n for n in walk_function(cg.node) if isinstance(n, ast.For) and u(n.iter).endswith(".as_vector()") and u(n.iter).startswith("all_genotypes[")]
-    ok = ag is not None and u(ag) == "variant_table.genotypes_of(sample)" and len(inner) == 1
-    if ok:
-        a = u(inner[0].target)
-        incs = [x for x in ast.walk(inner[0]) if isinstance(x, ast.AugAssign) and isinstance(x.op, ast.Add) and u(x.target) == "allele_count[%s]" % a and u(x.value) == "1"]
+    inner = [n for n in walk_function(cg.node) if isinstance(n, ast.For) and isinstance(n.iter, ast.Call) and isinstance(n.iter.func, ast.Attribute) and n.iter.func.attr == "as_vector" and isinstance(n.target, ast.Name)]
+    ok = None
+    if len(inner) == 1:
+        a = inner[0].target.id
+        g = n_ = inner[0].iter.func.value
         outer = inner[0].parent
-        ok = (None if not incs else (len(incs) == 1 and isinstance(outer, ast.For) and u(outer.iter) == "range(len(all_genotypes))" and any(isinstance(c, ast.Call) and u(c.func) == "genotype_list.append" and u(c.args[0]) == "allele_count" for c in ast.walk(outer))))
+        SRC = "variant_table.genotypes_of(sample)"
+
+        def seq_of(e):
+            e = util.expand_single_defs(cg.node, e, keep=("variant_table", "sample"))
+            return u(e)
+
+        # the genotype whose alleles are counted is the k-th of the sample's input genotypes
+        from_input = False
+        if isinstance(outer, ast.For):
+            if isinstance(g, ast.Name) and isinstance(outer.target, ast.Name) and g.id == outer.target.id and seq_of(outer.iter) == SRC:
+                from_input = True
+            elif isinstance(g, ast.Subscript) and isinstance(outer.target, ast.Name) and u(g.slice) == outer.target.id and seq_of(g.value) == SRC and seq_of(outer.iter) in ("range(len(%s))" % SRC,):
+                from_input = True
+        cnt = None
+        for x in ast.walk(inner[0]):
+            if isinstance(x, ast.AugAssign) and isinstance(x.op, ast.Add) and isinstance(x.target, ast.Subscript) and u(x.target.slice) == a and u(x.value) == "1":
+                cnt = u(x.target.value)
+            elif isinstance(x, ast.Assign) and len(x.targets) == 1 and isinstance(x.targets[0], ast.Subscript) and u(x.targets[0].slice) == a:
+                d_ = u(x.targets[0].value)
+                if u(x.value) in ("%s.get(%s, 0) + 1" % (d_, a), "1 + %s.get(%s, 0)" % (d_, a)):
+                    cnt = d_
+        appended = isinstance(outer, ast.For) and cnt is not None and any(isinstance(c, ast.Call) and u(c.func) == "genotype_list.append" and u(c.args[0]) == cnt for c in ast.walk(outer))
+        fresh = isinstance(outer, ast.For) and cnt is not None and any(isinstance(b_, (ast.Assign, ast.AnnAssign)) and u(b_.targets[0] if isinstance(b_, ast.Assign) else b_.target) == cnt and u(b_.value) in ("dict()", "{}", "defaultdict(int)", "Counter()") for b_ in outer.body)
+        ok = (from_input and appended and fresh) if cnt is not None else None
     ctx.ob(cg.qual, "genotype-dict-is-allele-count", ok, cg.loc(), "genotype_list[k] counts the alleles of the sample's input genotype k" if ok else "create_genotype_list no longer counts the alleles of genotype.as_vector()")
     psi = ctx.func(PP + ".phase_single_individual")
     gld = util.single_def(psi.node, "genotype_list")
@@ -368,6 +390,29 @@ def r6(ctx):
             continue
         d = util.single_def(pb.node, src_root)
         depth = util.copy_depth(d, tgt_root) if d is not None else None
+        if depth is None and d is not None and tgt_root in {x.id for x in ast.walk(d) if isinstance(x, ast.Name)}:
+            # a partial snapshot taken per position: the row T[k][:] / list(T[k]) for stores T[k][j] = snap[..], or the column
+            # [h[k] for h in T] for stores T[j][k] = snap[..]; it must be taken outside the loop that performs the stores
+            dst = util.stmt_of(d)
+            inner = st.stmt
+            while inner is not None and not isinstance(inner, ast.For):
+                inner = getattr(inner, "parent", None)
+            outside = inner is not None and not any(x is dst for x in ast.walk(inner)) and any(x is dst for x in ast.walk(getattr(inner, "parent", inner)))
+            tsub = st.target
+            idx = []
+            while isinstance(tsub, ast.Subscript):
+                idx.insert(0, u(tsub.slice))
+                tsub = tsub.value
+            okp = None
+            if len(idx) == 2 and outside:
+                row = util.copy_depth(d, "%s[%s]" % (tgt_root, idx[0]))
+                if row is not None:
+                    okp = row >= 1
+                elif isinstance(d, ast.ListComp) and len(d.generators) == 1 and not d.generators[0].ifs and u(d.generators[0].iter) == tgt_root and u(d.elt) == "%s[%s]" % (u(d.generators[0].target), idx[1]):
+                    okp = True
+            n += 1
+            ctx.ob(pb.qual, "permutation-reads-a-snapshot:%s" % tgt_root, okp, pb.loc(st.stmt), "%s is permuted in place from %s = %s, a per-position snapshot taken before the stores of that position" % (tgt_root, src_root, u(d)[:40]) if okp else ("the snapshot %s = %s shares storage with what is being overwritten" % (src_root, u(d)[:40]) if okp is False else "cannot tell whether %s = %s is a snapshot of what `%s` overwrites" % (src_root, u(d)[:40], st.text()[:50])))
+            continue
         if depth is None:
             continue  # source is unrelated to the target
         need = util.subscript_depth(st.target)
